@@ -1,28 +1,58 @@
 /-
   C06 (a)+(b) — Healing restores: after validation followed by healing (validator-first schedule), the
   directory matches the signed build, for EVERY damaged tree (any missing / replaced / corrupted / extra
-  entries), provided no signed directory has been replaced by a symlink (finding F15: there the files below
-  validate *through* the symlink, only the directory wound is reported and healing it orphans them).
-  Property theorems only; helper lemmas live in Wharf/Proofs/HealRestore.lean.
+  entries).  Property theorems only; helper lemmas live in Wharf/Proofs/HealRestore.lean and (the invariant of
+  every interleaving, of which the validator-first schedule is one) Wharf/Proofs/HealTS.lean.
 
-  Status of the hypotheses: `SignedWF`, `TInv` and `NoDirSymlink` (plus `ParentsFirst` for completion) are
-  SUFFICIENT exactly as first written — no strengthening was needed and no counterexample was found (besides the
-  proofs, all three statements were checked exhaustively on ~87 000 (signed build, damaged tree) pairs over the
-  8 paths of length ≤ 3 over {a,b}, with stray files / directories / relative symlinks (`b`, `../a`, `a/b`, `..`)
-  anywhere, including at signed file and symlink paths and below signed directories).  Of `SignedWF.clean` only
-  `p ≠ []` and `".." ∉ p` are used.  The proof also yields `TInv t'` (`Wharf.Heal.restore_main`).
-  Why it works: by `parents` every proper ancestor of a signed path is a signed directory, and by
-  `NoDirSymlink` + `TInv` none of those is a symlink, so `lstat`/`mkdirs` on signed paths never follow a
-  link: what the validator saw at `p` is what is stored at `p`.
+  STATUS AFTER THE REPAIR OF FINDING F15 (`fix: healing a directory that something else had replaced also heals
+  what lives below it`, pwr/archive_healer.go `healBelow`).  F15 was: a signed directory replaced by a symlink to
+  a (moved) copy of itself — the entries below validate THROUGH the link, only the directory wound is
+  reported, and healing it left an empty directory.  The old theorems excluded that damage by the hypothesis
+  `NoDirSymlink s t`.  With the fixed code (and the models brought in line with it):
+
+    * `heal_restores_any_tree`, `heal_then_valid_any_tree`, `heal_completes_any_tree`,
+      `heal_leaves_unrelated_any_tree`: NO hypothesis on the damaged tree besides the model's structural
+      invariant `TInv` — signed directories may be symlinks to anywhere (relative destinations resolving inside
+      the tree, dangling, absolute, chains, loops).  They need `ParentsFirst s` (directories listed
+      parents-first, as `tlc.Walk` lists them).
+    * The old theorems `heal_restores`, `heal_then_valid`, `heal_completes`, `heal_leaves_unrelated` are kept
+      under their names with their old hypotheses (`NoDirSymlink`, and no `ParentsFirst` for restoration): they
+      hold for the fixed code as well.  So restoration is proved under `ParentsFirst s ∨ NoDirSymlink s t`.
+    * `ParentsFirst` cannot be dropped from the any-tree theorems: `any_tree_needs_parents_first` below (a
+      container that lists `a/c` before `a`; `a` replaced by a symlink).  That deviation is NOT caused by the
+      repair — the unrepaired code behaves the same on that instance — and containers produced by `tlc.Walk` are
+      parents-first; it is reported, not excluded silently.
+    * Where the validator itself stops with an error, `validateAndHeal` is `.err` and the theorems are vacuous.
+      `validate` returns `.err` exactly when an `lstat` of the directory pass or the symlink pass fails with an
+      error that is not "not there" (`notExist`: ENOENT, ENOTDIR), which on this filesystem model means ELOOP —
+      a chain of links through signed directories that does not end within the fuel of `FS.resolve`, e.g. `a → a`
+      while `a/x` is signed.  (An absolute destination and a dangling relative one give ENOENT: a wound, no
+      error.)  The per-file pass never stops: every `lstat` error there counts as "missing".  The real validator
+      returns the `Lstat`/`Readlink` error in the same places (pwr/validator.go, directory and symlink loops).
+
+  Why it works now.  A heal call acts on the literal path only if no directory above it is a symlink; the
+  validator's verdict on an entry below a symlinked directory is evaluated THROUGH the link on the current tree —
+  healthy or wounded, it does not matter, because the DIR wound of the link is in the FIFO channel ahead of every
+  wound of an entry below it (directories are inspected first, parents first), so the link is replaced by an
+  empty directory BEFORE any entry below it is healed, and `healBelow` then heals every signed directory, symlink
+  and file below it, whatever the verdicts were.  A file is queued for the healing goroutine only when its parent
+  directory is in place (`Wharf.HealTS.Inv.queueReady`), so no write ever goes through a link either.
+  Of `SignedWF.clean` only `p ≠ []` and `".." ∉ p` are used.
+
+  Exhaustive evaluation (compiled model, besides the proofs): 394 272 (signed build, damaged tree) pairs over the
+  paths a, b, a/a, a/b, b/a, b/b, a/a/a with stray files / directories / symlinks (`b`, `a`, `.`, `..`, `../b`,
+  `b/a`, `a/b`, `/x`) anywhere — parents-first: 0 failures, 0 healer errors (36 173 validator errors);
+  children-first: 1 458 trees that do not match after healing, none of them under `NoDirSymlink`.
 -/
 import Wharf.Model.Heal
 import Wharf.Props.C05Tree
 import Wharf.Proofs.Heal
 import Wharf.Proofs.HealRestore
+import Wharf.Proofs.HealTS
 import Wharf.Props.C06
 
 namespace Wharf.C06
-open Wharf Wharf.FS Wharf.Validate Wharf.TreeValidate Wharf.Heal
+open Wharf Wharf.FS Wharf.Validate Wharf.TreeValidate Wharf.Heal Wharf.HealTS
 
 /-- all paths of a signed build -/
 def allPaths (s : Signed) : List Path := s.dirs ++ s.symlinks.map (·.1) ++ s.files.map (·.1)
@@ -35,79 +65,226 @@ structure SignedWF (s : Signed) : Prop where
   distinct : (allPaths s).Nodup
   parents : ∀ p ∈ allPaths s, ∀ j, 0 < j → j < p.length → p.take j ∈ s.dirs
 
-/-- The excluded damage (finding F15): a signed directory that is a symlink in the damaged tree. -/
+/-- The damage that used to be excluded (finding F15, repaired): a signed directory that is a symlink in the
+    damaged tree.  Kept because the old theorems are kept; see `heal_restores_any_tree` for the statement
+    without it. -/
 def NoDirSymlink (s : Signed) (t : Tree) : Prop :=
   ∀ p ∈ s.dirs, ∀ d, lstat t p ≠ .ok (.symlink d)
 
-/-- C06 (a): whenever validate-then-heal completes, the healed tree matches the signed build — every signed
-    directory is a directory, every signed symlink points where it should, every signed file holds exactly
-    its signed bytes. `t` is ANY tree satisfying the model's structural invariant. -/
-theorem heal_restores (bs : Nat) (hbs : 0 < bs) (maxSize : Nat) (s : Signed) (t t' : Tree)
-    (hs : SignedWF s) (ht : Wharf.Archive.TInv t) (hno : NoDirSymlink s t)
-    (h : validateAndHeal bs maxSize s t = .ok t') : C05Tree.Matches s t' := by
-  have hw : WF s := ⟨hs.clean, hs.distinct, hs.parents⟩
-  obtain ⟨hI', hA, hleaf, _⟩ :=
-    restore_main bs hbs maxSize s t t' hw ht (noSymDirs_of_lstat hw ht hno) h
+/-- Directories are listed parents-first (as `tlc.Walk` lists them). -/
+def ParentsFirst (s : Signed) : Prop :=
+  ∀ i (h : i < s.dirs.length), ∀ j, 0 < j → j < (s.dirs[i]).length → (s.dirs[i]).take j ∈ s.dirs.take i
+
+theorem SignedWF.wf {s : Signed} (hs : SignedWF s) : WF s := ⟨hs.clean, hs.distinct, hs.parents⟩
+
+/-- either hypothesis starts the invariant of Proofs/HealTS.lean -/
+theorem inv_init {s : Signed} {t : Tree} (hs : SignedWF s) (ht : Wharf.Archive.TInv t)
+    (hm : ParentsFirst s ∨ NoDirSymlink s t) : Inv s (HealTS.init t) :=
+  Inv.init ht (hm.imp id (noSymDirs_of_lstat hs.wf ht))
+
+/-- what the invariant gives in a terminal state, in terms of `lstat` -/
+theorem matches_of_terminal {s : Signed} (hs : SignedWF s) {σ : State} (hI : Inv s σ) (hterm : σ.terminal) :
+    C05Tree.Matches s σ.tree := by
+  have hw := hs.wf
+  obtain ⟨hA, hleaf⟩ := hI.terminal hw hterm
   refine ⟨?_, ?_, ?_⟩
   · intro p hp
-    exact lstat_of_get hI' (hw.nodd (mem_allPaths_dir hp)) (hA p hp)
+    exact lstat_of_get hI.tinv (hw.nodd (mem_allPaths_dir hp)) (hA p hp)
   · intro e he
     have hl : (e.1, Node.symlink e.2) ∈ leaves s := by
       simp only [leaves, List.mem_append, List.mem_map]
       exact .inl ⟨e, he, rfl⟩
-    exact lstat_of_get hI' (hw.nodd (leaf_mem_allPaths hl)) (hleaf _ hl)
+    exact lstat_of_get hI.tinv (hw.nodd (leaf_mem_allPaths hl)) (hleaf _ hl)
   · intro e he
     have hl : (e.1, Node.file e.2) ∈ leaves s := by
       simp only [leaves, List.mem_append, List.mem_map]
       exact .inr ⟨e, he, rfl⟩
-    exact lstat_of_get hI' (hw.nodd (leaf_mem_allPaths hl)) (hleaf _ hl)
+    exact lstat_of_get hI.tinv (hw.nodd (leaf_mem_allPaths hl)) (hleaf _ hl)
 
-/-- … and therefore a second validation of the healed tree succeeds fail-fast (C06 (b)). -/
+/-- restoration under either hypothesis (parents-first listing, or no signed directory replaced by a symlink) -/
+theorem heal_restores_either (bs : Nat) (hbs : 0 < bs) (maxSize : Nat) (s : Signed) (t t' : Tree)
+    (hs : SignedWF s) (ht : Wharf.Archive.TInv t) (hm : ParentsFirst s ∨ NoDirSymlink s t)
+    (h : validateAndHeal bs maxSize s t = .ok t') : C05Tree.Matches s t' := by
+  obtain ⟨σ, hr, hterm, _, rfl⟩ := sequential_reach bs hbs maxSize s t t' h
+  exact matches_of_terminal hs ((inv_init hs ht hm).reach bs hbs maxSize hs.wf hr) hterm
+
+/-- C06 (a), ANY damaged tree (finding F15 repaired): whenever validate-then-heal completes, the healed tree
+    matches the signed build — every signed directory is a directory, every signed symlink points where it
+    should, every signed file holds exactly its signed bytes.  `t` is ANY tree satisfying the model's structural
+    invariant: signed directories may have been replaced by symlinks to anywhere.  (Where `validate` stops with
+    an error — ELOOP, see the header — `validateAndHeal` is `.err` and the statement is vacuous.) -/
+theorem heal_restores_any_tree (bs : Nat) (hbs : 0 < bs) (maxSize : Nat) (s : Signed) (t t' : Tree)
+    (hs : SignedWF s) (hpf : ParentsFirst s) (ht : Wharf.Archive.TInv t)
+    (h : validateAndHeal bs maxSize s t = .ok t') : C05Tree.Matches s t' :=
+  heal_restores_either bs hbs maxSize s t t' hs ht (.inl hpf) h
+
+/-- C06 (a) as first stated (kept; no `ParentsFirst` needed when no signed directory is a symlink). -/
+theorem heal_restores (bs : Nat) (hbs : 0 < bs) (maxSize : Nat) (s : Signed) (t t' : Tree)
+    (hs : SignedWF s) (ht : Wharf.Archive.TInv t) (hno : NoDirSymlink s t)
+    (h : validateAndHeal bs maxSize s t = .ok t') : C05Tree.Matches s t' :=
+  heal_restores_either bs hbs maxSize s t t' hs ht (.inr hno) h
+
+/-- … and therefore a second validation of the healed tree succeeds fail-fast (C06 (b)), for any damaged tree. -/
+theorem heal_then_valid_any_tree (bs : Nat) (hbs : 0 < bs) (maxSize : Nat) (s : Signed) (t t' : Tree)
+    (hs : SignedWF s) (hpf : ParentsFirst s) (ht : Wharf.Archive.TInv t)
+    (h : validateAndHeal bs maxSize s t = .ok t') : failFastOk bs maxSize s t' = true :=
+  (C05Tree.verdict_iff bs hbs maxSize s t').mpr (heal_restores_any_tree bs hbs maxSize s t t' hs hpf ht h)
+
 theorem heal_then_valid (bs : Nat) (hbs : 0 < bs) (maxSize : Nat) (s : Signed) (t t' : Tree)
     (hs : SignedWF s) (ht : Wharf.Archive.TInv t) (hno : NoDirSymlink s t)
     (h : validateAndHeal bs maxSize s t = .ok t') : failFastOk bs maxSize s t' = true :=
   (C05Tree.verdict_iff bs hbs maxSize s t').mpr (heal_restores bs hbs maxSize s t t' hs ht hno h)
 
-/-- Healing completes whenever validation does, if directories are listed parents-first (as `tlc.Walk`
-    lists them). -/
-def ParentsFirst (s : Signed) : Prop :=
-  ∀ i (h : i < s.dirs.length), ∀ j, 0 < j → j < (s.dirs[i]).length → (s.dirs[i]).take j ∈ s.dirs.take i
-
-theorem heal_completes (bs : Nat) (hbs : 0 < bs) (maxSize : Nat) (s : Signed) (t : Tree) (ws : List Wound)
-    (hs : SignedWF s) (hpf : ParentsFirst s) (ht : Wharf.Archive.TInv t) (hno : NoDirSymlink s t)
+/-- Healing completes whenever validation does, for ANY damaged tree, if directories are listed parents-first:
+    no `Lstat` / `Remove` / `MkdirAll` / `Symlink` / whole-file rewrite of the healer fails — not in the
+    validator-first schedule and not in any other (`heal_any_tree_no_healer_failure`, Props/C06Sched.lean). -/
+theorem heal_completes_any_tree (bs : Nat) (hbs : 0 < bs) (maxSize : Nat) (s : Signed) (t : Tree)
+    (ws : List Wound) (hs : SignedWF s) (hpf : ParentsFirst s) (ht : Wharf.Archive.TInv t)
     (hv : validate bs maxSize s t = .ok ws) : ∃ t', validateAndHeal bs maxSize s t = .ok t' := by
-  have hw : WF s := ⟨hs.clean, hs.distinct, hs.parents⟩
-  exact complete_main bs hbs maxSize s t ws hw hpf ht (noSymDirs_of_lstat hw ht hno) hv
+  apply Classical.byContradiction
+  intro hne
+  obtain ⟨σ, hr, hfail⟩ := sequential_fail_reach bs hbs maxSize s t ws hv
+    (fun t' h' => hne ⟨t', h'⟩)
+  exact (inv_init hs ht (.inl hpf)).reach_no_healer_fail bs hbs maxSize hs.wf hpf
+    (by simp [HealTS.init]) hr hfail
 
-/-- Entries that healing has no business with stay: a path that is neither a signed path, nor below one,
-    nor an ancestor of one, has the same node before and after. -/
-theorem heal_leaves_unrelated (bs : Nat) (hbs : 0 < bs) (maxSize : Nat) (s : Signed) (t t' : Tree)
-    (hs : SignedWF s) (ht : Wharf.Archive.TInv t) (hno : NoDirSymlink s t)
+/-- as first stated (kept; `_hno` is no longer needed) -/
+theorem heal_completes (bs : Nat) (hbs : 0 < bs) (maxSize : Nat) (s : Signed) (t : Tree) (ws : List Wound)
+    (hs : SignedWF s) (hpf : ParentsFirst s) (ht : Wharf.Archive.TInv t) (_hno : NoDirSymlink s t)
+    (hv : validate bs maxSize s t = .ok ws) : ∃ t', validateAndHeal bs maxSize s t = .ok t' :=
+  heal_completes_any_tree bs hbs maxSize s t ws hs hpf ht hv
+
+theorem heal_leaves_unrelated_either (bs : Nat) (hbs : 0 < bs) (maxSize : Nat) (s : Signed) (t t' : Tree)
+    (hs : SignedWF s) (ht : Wharf.Archive.TInv t) (hm : ParentsFirst s ∨ NoDirSymlink s t)
     (h : validateAndHeal bs maxSize s t = .ok t') (q : Path)
     (hq : ∀ p ∈ allPaths s, p ≠ q ∧ ¬ isPrefix p q ∧ ¬ isPrefix q p) : t'.get q = t.get q := by
-  have hw : WF s := ⟨hs.clean, hs.distinct, hs.parents⟩
-  obtain ⟨_, _, _, hun⟩ :=
-    restore_main bs hbs maxSize s t t' hw ht (noSymDirs_of_lstat hw ht hno) h
-  apply hun q
+  obtain ⟨σ, hr, _, _, rfl⟩ := sequential_reach bs hbs maxSize s t t' h
+  have hK := (inv_init hs ht hm).reach_keeps bs hbs maxSize hs.wf hr
+  apply hK.unrelated q
   intro p hp
   obtain ⟨h1, h2, h3⟩ := hq p hp
   exact ⟨h1, by simpa using h2, by simpa using h3⟩
 
-/-- The exclusion is necessary (F15, machine-checked witness): a signed directory replaced by a symlink to a
-    moved copy validates below the link, is healed into an empty directory, and the result does NOT match. -/
+/-- Entries that healing has no business with stay, for ANY damaged tree: a path that is neither a signed path,
+    nor below one, nor an ancestor of one, has the same node before and after.  (What a replaced directory's
+    symlink pointed AT is such a path unless it is signed itself: the moved copy is left alone.) -/
+theorem heal_leaves_unrelated_any_tree (bs : Nat) (hbs : 0 < bs) (maxSize : Nat) (s : Signed) (t t' : Tree)
+    (hs : SignedWF s) (hpf : ParentsFirst s) (ht : Wharf.Archive.TInv t)
+    (h : validateAndHeal bs maxSize s t = .ok t') (q : Path)
+    (hq : ∀ p ∈ allPaths s, p ≠ q ∧ ¬ isPrefix p q ∧ ¬ isPrefix q p) : t'.get q = t.get q :=
+  heal_leaves_unrelated_either bs hbs maxSize s t t' hs ht (.inl hpf) h q hq
+
+theorem heal_leaves_unrelated (bs : Nat) (hbs : 0 < bs) (maxSize : Nat) (s : Signed) (t t' : Tree)
+    (hs : SignedWF s) (ht : Wharf.Archive.TInv t) (hno : NoDirSymlink s t)
+    (h : validateAndHeal bs maxSize s t = .ok t') (q : Path)
+    (hq : ∀ p ∈ allPaths s, p ≠ q ∧ ¬ isPrefix p q ∧ ¬ isPrefix q p) : t'.get q = t.get q :=
+  heal_leaves_unrelated_either bs hbs maxSize s t t' hs ht (.inr hno) h q hq
+
+/-! ### the F15 instance, healed
+
+  A signed directory replaced by a symlink to a moved copy: validation reaches `a/f` THROUGH the link and
+  reports the directory wound only; the fixed healer replaces the link by a directory and `healBelow("a")` queues
+  `a/f`, which the healing goroutine then rewrites.  (The unrepaired model gave `[(b, dir), (b/f, …), (a, dir)]`
+  here, which does not validate: the former `heal_restores_counterexample`.) -/
+
 def exF15Signed : Signed := { dirs := [["a"]], files := [(["a", "f"], [1, 2, 3])] }
 def exF15Tree : Tree :=
   { entries := [(["b"], .dir), (["b", "f"], .file [1, 2, 3]), (["a"], .symlink "b")] }
 
 -- (plain `decide` gets stuck on `splitDest "b"` — `String.splitOn` is defined by well-founded recursion —
--- so the validation through the link is computed in `Wharf.Heal.f15_validate`; the healing and the second
--- validation are evaluated by `decide`.)
-theorem heal_restores_counterexample :
+-- so the validation through the link is computed in `Wharf.Heal.f15_validate`; the healing, which does not go
+-- through the link any more once it is removed, and the second validation are evaluated by `decide`.)
+theorem f15_heals :
     (match validateAndHeal 2 100 exF15Signed exF15Tree with
-     | .ok t => failFastOk 2 100 exF15Signed t | _ => true) = false := by
+     | .ok t => (t.entries, failFastOk 2 100 exF15Signed t)
+     | _ => ([], false)) =
+    ([(["b"], .dir), (["b", "f"], .file [1, 2, 3]), (["a"], .dir), (["a", "f"], .file [1, 2, 3])], true) := by
   unfold validateAndHeal
   rw [show validate 2 100 exF15Signed exF15Tree = _ from f15_validate]
   decide
+
+/-- … the healed tree matches the signed build (and the moved copy `b` is left alone) -/
+example : ∃ t, validateAndHeal 2 100 exF15Signed exF15Tree = .ok t ∧ C05Tree.Matches exF15Signed t := by
+  have h := f15_heals
+  cases hv : validateAndHeal 2 100 exF15Signed exF15Tree with
+  | ok t =>
+    rw [hv] at h
+    simp only [Prod.mk.injEq] at h
+    exact ⟨t, rfl, (C05Tree.verdict_iff 2 (by decide) 100 exF15Signed t).mp h.2⟩
+  | err e => rw [hv] at h; simp at h
+  | panic e => rw [hv] at h; simp at h
+
+/-- A richer instance (`Wharf.Heal.richSigned` / `richTree`): signed directory `a` with a nested signed directory
+    `a/c`, a signed symlink `a/l → c/g` and the files `a/f`, `a/c/g` below it; on disk `a` is a symlink to a moved
+    copy `b` in which `f` is also damaged.  Validation through the link reports the directory wound and one file
+    wound; healing replaces the link and `healBelow("a")` restores the directory, the symlink and BOTH files (the
+    copy `b`, damaged file included, is left alone); the result validates. -/
+example : (match validateAndHeal 2 100 richSigned richTree with
+     | .ok t => (t.entries, failFastOk 2 100 richSigned t)
+     | _ => ([], false)) =
+    ([(["b"], .dir), (["b", "c"], .dir), (["b", "l"], .symlink "c/g"), (["b", "f"], .file [1, 9, 3]),
+      (["b", "c", "g"], .file [4, 5]), (["a"], .dir), (["a", "c"], .dir), (["a", "l"], .symlink "c/g"),
+      (["a", "f"], .file [1, 2, 3]), (["a", "c", "g"], .file [4, 5])], true) := by
+  unfold validateAndHeal
+  rw [show validate 2 100 richSigned richTree = _ from rich_validate]
+  decide
+
+/-- the hypotheses of `heal_restores_any_tree` hold for that instance — although `NoDirSymlink` does not -/
+example : SignedWF richSigned ∧ ParentsFirst richSigned ∧ Wharf.Archive.TInv richTree ∧
+    ¬ NoDirSymlink richSigned richTree := by
+  refine ⟨⟨by decide, by decide, ?_⟩, ?_, ⟨by decide, by decide, ?_⟩, ?_⟩
+  · intro p hp j hj1 hj2
+    simp only [allPaths, richSigned, List.map_cons, List.map_nil, List.cons_append, List.nil_append,
+      List.mem_cons, List.not_mem_nil, or_false] at hp
+    rcases hp with rfl | rfl | rfl | rfl | rfl
+    · simp at hj2; omega
+    · have : j = 1 := by simp at hj2; omega
+      subst this; decide
+    · have : j = 1 := by simp at hj2; omega
+      subst this; decide
+    · have : j = 1 := by simp at hj2; omega
+      subst this; decide
+    · have : j = 1 ∨ j = 2 := by simp at hj2; omega
+      rcases this with rfl | rfl <;> decide
+  · intro i h j hj1 hj2
+    simp only [richSigned, List.length_cons, List.length_nil] at h
+    have : i = 0 ∨ i = 1 := by omega
+    rcases this with rfl | rfl
+    · simp [richSigned] at hj2; omega
+    · have : j = 1 := by simp [richSigned] at hj2; omega
+      subst this; simp [richSigned]
+  · unfold Wharf.Archive.IsDir; decide
+  · intro h
+    exact h ["a"] (by decide) "b" rich_lstat_a
+
+/-- `ParentsFirst` cannot be dropped from the any-tree theorems (machine-checked instance, `Wharf.Heal.pfSigned` /
+    `pfTree`): the container lists `a/c` before `a`; on disk `a` is a symlink to `b`, and `b/c` is a signed regular
+    file that is intact.  `SignedWF` and `TInv` hold, validation completes, healing completes — and the healed tree
+    has a DIRECTORY at `b/c`: the directory wound of `a/c` was handled while `a` was still a link, so `Lstat(a/c)`
+    found the file `b/c` through it, removed it and `MkdirAll` created `b/c` as a directory; nothing heals `b/c`
+    afterwards (it had validated).  Go-level: `ArchiveHealer.Do` on a container whose `Dirs` are not
+    parents-first (not produced by `tlc.Walk`; conceivable for a container read from elsewhere).  The unrepaired
+    code destroys `b/c` in the same way; the repair of F15 neither causes nor cures it. -/
+theorem any_tree_needs_parents_first :
+    SignedWF pfSigned ∧ Wharf.Archive.TInv pfTree ∧ ¬ ParentsFirst pfSigned ∧
+    (match validateAndHeal 2 100 pfSigned pfTree with
+     | .ok t => (t.entries, failFastOk 2 100 pfSigned t) | _ => ([], true)) =
+     ([(["b"], .dir), (["b", "c"], .dir), (["a"], .dir), (["a", "c"], .dir)], false) := by
+  refine ⟨⟨by decide, by decide, ?_⟩, ⟨by decide, by decide, ?_⟩, ?_, pf_heal⟩
+  · intro p hp j hj1 hj2
+    simp only [allPaths, pfSigned, List.map_cons, List.map_nil, List.cons_append, List.nil_append,
+      List.mem_cons, List.not_mem_nil, or_false] at hp
+    rcases hp with rfl | rfl | rfl | rfl
+    · have : j = 1 := by simp at hj2; omega
+      subst this; decide
+    · simp at hj2; omega
+    · simp at hj2; omega
+    · have : j = 1 := by simp at hj2; omega
+      subst this; decide
+  · unfold Wharf.Archive.IsDir; decide
+  · intro h
+    have := h 0 (by decide) 1 (by decide) (by decide)
+    simp [pfSigned] at this
 
 /-! ### non-vacuity: the hypotheses hold for the wrecked example of C06.lean -/
 
